@@ -105,6 +105,10 @@ class C13(Spec):
         "the correspondence (Lean `Float` is opaque to the kernel)",
         "per-layout tables are regenerated from the real objects on every run; np.lexsort, Layout.without_lfe, "
         "allo_positions.yaml are black boxes behind those tables",
+        "AllocentricPanner.handle is the C01 model Earverif.GainCalc.alloHandle (Model/GainCalc.lean), imported "
+        "unchanged; the polar theorems import Props/C05 (model PointSource.lean, tables Gen/C05_Tables.lean regenerated "
+        "here through C05's extractor); theorems about renderCartLock are over the reals, its Float instance is what "
+        "runs against GainCalc.render (1e-12, equal zero pattern)",
     )
     assumptions = (
         "zone azimuth/elevation bounds are finite and of moderate size (|value| <= 1080 in the generators): "
@@ -117,13 +121,18 @@ class C13(Spec):
         "screenRef no-op is checked with |difference| <= 1e-7 per gain (scale_position converts to polar and back)",
         "objects use only the features the property names: position, extent, divergence, zoneExclusion, channelLock, "
         "screenRef, gain, diffuse; no positionOffset, no screenEdgeLock",
+        "in the block-sequence search a 'fresh instance' is a deep copy of a GainCalc that was constructed in the same "
+        "process and has never rendered (construction costs ~0.3 s, a copy 1 ms); every third sequence runs on a newly "
+        "constructed shared instance",
     )
     rule = (
         "correspondence: all 2^n exclusion masks per layout for n <= 12 (sampled above) for downmix_for_excluded and "
         "allocentric.get_excluded; generated zone lists (random boxes/ranges, boxes and ranges pinned to loudspeaker "
         "coordinates with offsets 0, +-1e-6 +- 1ulp, wrap-around azimuth ranges, poles); lock positions (random, on "
         "loudspeakers, midpoints/exact ties, maxDistance at the boundary +- ulps); screens (polar/Cartesian) x az/el "
-        "incl. the table points. search: rendered gains on all ten layouts, see distribution; a case is one "
+        "incl. the table points. search: rendered gains on all ten layouts, single blocks and sequences of 2..6 blocks "
+        "on one shared GainCalc instance (equal zone lists recurring across polar/Cartesian blocks, alternating lock, "
+        "the known finding's trigger first) each compared exactly with the same block on a fresh instance, see distribution; a case is one "
         "(layout, function, input) tuple; non-trivial = the input exercises the feature (non-empty zone list / lock set / "
         "screenRef set)"
     )
@@ -204,6 +213,7 @@ class C13(Spec):
 
         drv = Driver("c13driver", "Earverif.Driver.C13")
         rng = ctx.rng
+        self._state_hits = []
         if not getattr(self, "tables", None):
             self.tables = {name: layout_tables(lay) for name, lay in self._layouts()}
         lines, checks = [], []  # checks: callables(answer line)
@@ -586,6 +596,17 @@ class C13(Spec):
                 real = (mask_str(final), [float(x) for x in d], [float(x) for x in f])
             except ValueError as e:
                 real = "none"
+            if zones:
+                # the renderer's own handler, asked again with an equal zone list after the Cartesian render (whose
+                # row extension / reset works on a copy of the mask): get_excluded is a function of the zone list
+                again = [bool(b) for b in gc.zone_exclusion_handler.get_excluded(S.zones_to_objects(zones))]
+                ctx.count("get_excluded re-queried on the renderer's handler after a Cartesian render")
+                if again != zmask:
+                    # reported after the rendered block sequences of the search (which show the audible consequence)
+                    self._state_hits.append((
+                        "get_excluded returns a different mask for an equal zone list after a Cartesian render "
+                        "(state kept between blocks)", {"layout": name, "sequence": [o, {"get_excluded": zones}]},
+                        {"before": mask_str(zmask), "after": mask_str(again)}, []))
             ztok = []
             for z in zones:
                 if z["t"] == "c":
@@ -721,6 +742,8 @@ class C13(Spec):
 
     def search(self, ctx, deep):
         S.run_search(ctx, deep)
+        for h in getattr(self, "_state_hits", [])[:5]:
+            ctx.hit(*h)
 
 
 SPEC = C13()
@@ -735,14 +758,26 @@ REGISTRY = dict(
     "is missing from the final Cartesian mask exactly when the row extension covers every loudspeaker, and "
     "cart_zone_not_silent_witness exhibits it on 0+7+0 (known finding cartesian-zone-extend-reset: the property is "
     "false there, as in the Recommendation). Channel lock: lock_returns_speaker_position, lock_limit (nearest within "
-    "tol, best priority, within maxDistance or unchanged); screen_identity (equal edges => scale_az_el = id). "
-    "lock_one_speaker_partial assumes the point-source panner is exact at loudspeaker positions (C05); the "
-    "composition with the real panners, the float rounding at the thresholds and the whole GainCalc.render are "
-    "covered by correspondence (all 2^n masks for n <= 12, boundary zones, ties) and by the search on rendered gains.",
-    note="Trusted: Lean kernel; hand transliteration + correspondence; panners as parameters; IEEE zero laws sampled. "
-    "Known finding: Cartesian objects when the row extension of the zone mask covers all loudspeakers. Also noted: "
-    "channelLock raises ValueError for distances above ~1e11; inside_angle_range does not terminate for bounds >= ~1e17.",
-    technique="Lean 4 proofs over list models (induction, grind) + decide +kernel over regenerated layout tables + "
-    "differential correspondence with the real functions + direct-predicate search on GainCalc.render",
+    "tol, best priority, within maxDistance or unchanged). Cartesian path composed (renderCartLock: get_excluded -> "
+    "row extension/reset -> lock on the final mask -> _speaker_tree/AllocentricPanner on positions[~excluded] -> "
+    "scatter -> gain split): cart_lock_target_not_excluded, allo_exact_at_speaker (for EVERY set of pairwise distinct "
+    "positions _speaker_tree builds a sorted grid and the panner returns e_k at positions[k]), hence "
+    "cart_lock_one_speaker with no panner hypothesis (gains = unit vector of the locked, non-excluded loudspeaker, "
+    "zeros elsewhere); tables_allo_ok ties the real grids to the model by decide. Polar path: "
+    "polar_lock_one_speaker_partial / polar_lock_one_speaker_quad_partial compose the lock with C05's "
+    "triplet_exact_at_vertex / quad_corner, remaining hypothesis: the first accepting region has the loudspeaker as "
+    "a vertex (every loudspeaker is a vertex of some region: polar_tables_every_speaker_is_vertex, reused from C05). "
+    "screen_identity (equal edges => scale_az_el = id); compensate_position modelled (identity without U+045 / at "
+    "elevation 0 and 90). Float rounding at thresholds, the polar panner's region order, downmix wrappers and the whole "
+    "GainCalc.render are covered by correspondence (all 2^n masks for n <= 12, boundary zones, ties, whole Cartesian "
+    "lock+zone renders against renderCartLock) and by the search on rendered gains.",
+    note="Trusted: Lean kernel; hand transliteration + correspondence; polar/extent panners as parameters; IEEE zero "
+    "laws sampled; C05 model and tables imported unchanged. Known finding: Cartesian objects when the row extension of "
+    "the zone mask covers all loudspeakers. Also noted: channelLock raises ValueError for distances above ~1e11; "
+    "inside_angle_range does not terminate for bounds >= ~1e17; the Cartesian screenRef path is conversion (C19) o "
+    "scale_az_el o compensate_position o conversion, not a no-op for layouts with U+045.",
+    technique="Lean 4 proofs over list models (induction, grind, Mathlib order lemmas over R) + decide +kernel over "
+    "regenerated layout tables + differential correspondence with the real functions and whole renders + "
+    "direct-predicate search on GainCalc.render",
     design_ref="DESIGN.md section 4, C13; section 6 item 6",
 )
